@@ -234,7 +234,7 @@ def segmentLoop (bitLength : List Nat) : (fuel : Nat) → Buffer → Array Segme
 def RS_SYNDROMES (parity : Nat) : Int := parity
 
 /-- whether the decoder unmasks a private copy (repaired source) or the caller's pixels (pinned source) -/
-def DECODE_CLONES : Bool := false
+def DECODE_CLONES : Bool := true
 
 /-- Go: `image.Rectangle.Eq` on (w, h) rectangles at the origin -/
 def sameBounds (a b : Image) : Bool := a.rectEq b
